@@ -218,6 +218,10 @@ def mutate_settings(cfg, rnd, cov, clean=None, p_nodes=0.6):
             f = rnd.randint(2, 6)
             s["frequency"], s["variance"] = f, rnd.randint(0, min(2, f - 1))
             s["start_step"] = rnd.randint(1, 8)
+            if rnd.random() < 0.35:  # earliest possible first turn: start_step <= variance puts it on timestep 0
+                s["start_step"] = rnd.randint(0, 2)
+                s["variance"] = min(f - 1, max(s["start_step"], s["variance"]))
+                cov.inc("tap_first_turn_may_be_step0")
             s["repeat_kill_chain"] = rnd.random() < 0.5
             s["repeat_kill_chain_stages"] = rnd.random() < 0.7
             for stg, o in (s.get("kill_chain") or {}).items():
